@@ -101,6 +101,12 @@ pub fn extra_cells(cx: &mut Ctx, bits: &[bool], mode: u32, o: &Oracle, ps: &[usi
     let n = bits.len();
     let words = words_of(bits);
     let (no, nz) = (o.ones.len(), o.zeros.len());
+    // the thorough tier asks the primary cells at every position of its 65536-bit vectors; the secondary entry points get
+    // the boundary + random sample there
+    let thin: Vec<usize>;
+    let ps: &[usize] = if ps.len() > 3000 {
+        let all_p = positions(n, false, &mut Rng::new(n as u64 + no as u64)); let l = all_p.len();
+        thin = all_p.into_iter().enumerate().filter(|(i, _)| i % 3 == 0 || *i < 20 || *i + 20 >= l).map(|(_, p)| p).collect(); &thin } else { ps };
     // which of the rotating variants this vector gets (small vectors get all of them)
     let all = n <= 700;
     let rot = (n + mode as usize + no) % 4;
@@ -353,6 +359,10 @@ pub fn extra_cells(cx: &mut Ctx, bits: &[bool], mode: u32, o: &Oracle, ps: &[usi
         // wrong shapes are refused
         if MultiDimRankSelect::<3>::new(vec![make_bv(bits, mode), make_bv(&neg, 0)]).is_ok() { bad.push("<3>::new with two vectors not refused".into()); }
         if n >= 1 && MultiDimRankSelect::<2>::new(vec![make_bv(bits, mode), make_bv(&neg[..n - 1], 0)]).is_ok() { bad.push("<2>::new with unequal lengths not refused".into()); }
+        if n >= 1 && AdaptiveMultiDimensional::new_dual(make_bv(bits, mode), make_bv(&neg[..n - 1], 0)).is_ok() { bad.push("AdaptiveMultiDimensional::new_dual with unequal lengths not refused".into()); }
+        match AdaptiveMultiDimensional::new_dual(make_bv(&neg, 0), make_bv(bits, mode)) {
+            Ok(a) => { if a.dimensions() != 2 { bad.push("new_dual: dimensions() != 2".into()); } bad.extend(tag("new_dual(neg, bits)", check_sample(&a, &os[1], ps, &sample_ks(os[1].ones.len(), ps, 30), &sample_ks(os[1].zeros.len(), ps, 30), true))); }
+            Err(e) => bad.push(format!("new_dual refused: {:?}", e)) }
         // intersection / union as bit vectors: every bit, the length, and (through a whole-word-counting structure) the tail
         let chk_bv = |what: &str, got: zipora::Result<BitVector>, want: Vec<bool>, bad: &mut Vec<String>| {
             match got {
